@@ -1,87 +1,132 @@
-"""Implementation runner for C31: run the built-in generators with an injected failure at every
-open / write / close / replace and report what is left in the output directory."""
+"""Implementation runner for C31: run the built-in generators with a failure injected below the
+buffering layers and report what is left in the output directory.
+
+While a run is observed, files opened for writing in the output directory are real
+io.TextIOWrapper(io.BufferedWriter(raw)) stacks whose raw file (an io.FileIO subclass) fails on a
+chosen low-level write - once, or persistently (disk full), with or without part of the data
+reaching the file.  The implicit flushes (buffer full, close at the end of `with`) are therefore
+failure points exactly as they are with a real disk.  open(), close() of the raw file and
+os.replace can be made to fail as well."""
 import builtins
+import errno
+import io
 import json
 import os
+import re
 import shutil
 import sys
 import tempfile
 
 from textx import metamodel_from_file
 import textx.generators as G
-import textx.export as E
+import textx.export as E  # noqa
 
 real_open = builtins.open
 real_replace = os.replace
 
 
-class Injected(Exception):
+class Injected(OSError):
     pass
 
 
-class Proxy:
-    def __init__(self, f, plan, log):
-        self.f, self.plan, self.log = f, plan, log
+class Disk:
+    """Injection plan + what was observed during one run."""
 
-    def write(self, data):
-        k = self.log["writes"]
-        self.log["writes"] += 1
-        if self.plan.get("kind") == "write" and self.plan["k"] == k:
-            if self.plan.get("partial"):
-                self.f.write(data[: max(1, len(data) // 2)])
-                self.f.flush()
-            raise Injected("write %d" % k)
-        return self.f.write(data)
+    def __init__(self, outdir, plan, bufsize):
+        self.outdir = os.path.abspath(outdir)
+        self.plan = plan
+        self.bufsize = bufsize                 # 0 = the default stack (8 KiB buffer, text layer not write-through)
+        self.raw = 0                           # low-level write calls so far
+        self.raw_bytes = 0                     # bytes that reached the file
+        self.given = 0                         # bytes handed to write() by the generator
+        self.writes = []                       # per write call of the generator: [bytes, raw calls, everything flushed]
+        self.after_last_write = 0
+        self.opened, self.replaced = [], []
+        self.fired = False
 
-    def __enter__(self):
-        return self
+    def should_fail(self, n):
+        p = self.plan
+        return p.get("kind") == "raw" and (n == p["k"] or (p.get("persistent") and n > p["k"]))
 
-    def __exit__(self, *a):
-        self.f.close()
-        if a[0] is None and self.plan.get("kind") == "close":
-            raise Injected("close")
-        return False
+    def open(self, name, mode="r", *a, **k):
+        if "w" in mode and not isinstance(name, int) and os.path.dirname(os.path.abspath(name)) == self.outdir:
+            self.opened.append(os.path.basename(name))
+            if self.plan.get("kind") == "open":
+                self.fired = True
+                raise Injected(errno.EACCES, "injected: open")
+            disk = self
 
-    def __getattr__(self, n):
-        return getattr(self.f, n)
+            class Raw(io.FileIO):
+                close_failed = False
 
+                def write(self, b):
+                    n = disk.raw
+                    disk.raw += 1
+                    if disk.should_fail(n):
+                        disk.fired = True
+                        if disk.plan.get("partial"):
+                            b = bytes(b)
+                            disk.raw_bytes += super().write(b[: max(1, len(b) // 2)])
+                        if disk.plan.get("interrupt"):
+                            raise KeyboardInterrupt("injected: interrupt in low-level write %d" % n)
+                        raise Injected(errno.ENOSPC, "injected: low-level write %d" % n)
+                    w = super().write(b)
+                    disk.raw_bytes += w
+                    return w
 
-def run_once(kind, grammar_file, model_file, outdir, overwrite, plan):
-    log = {"writes": 0, "opened": [], "replaced": []}
+                def close(self):
+                    was_open = not self.closed
+                    super().close()
+                    if was_open and disk.plan.get("kind") == "close" and not Raw.close_failed:
+                        Raw.close_failed = True
+                        disk.fired = True
+                        raise Injected(errno.EIO, "injected: close")
 
-    def fake_open(name, mode="r", *a, **k):
-        if "w" in mode and os.path.dirname(os.path.abspath(name)) == os.path.abspath(outdir):
-            log["opened"].append(os.path.basename(name))
-            if plan.get("kind") == "open":
-                raise Injected("open")
-            return Proxy(real_open(name, mode, *a, **k), plan, log)
+            class Txt(io.TextIOWrapper):
+                def write(self, s):
+                    nb = len(s.encode(self.encoding))
+                    before = disk.raw
+                    disk.given += nb
+                    r = super().write(s)
+                    if nb:
+                        disk.writes.append([nb, disk.raw - before, disk.raw_bytes == disk.given])
+                    disk.after_last_write = disk.raw
+                    return r
+
+            raw = Raw(name, "w")
+            if self.bufsize:
+                buffered = io.BufferedWriter(raw, buffer_size=self.bufsize)
+                return Txt(buffered, encoding=k.get("encoding", "utf-8"), write_through=True)
+            return Txt(io.BufferedWriter(raw), encoding=k.get("encoding", "utf-8"))
         return real_open(name, mode, *a, **k)
 
-    def fake_replace(a, b):
-        log["replaced"].append([os.path.basename(a), os.path.basename(b)])
-        if plan.get("kind") == "replace":
-            raise Injected("replace")
+    def replace(self, a, b):
+        self.replaced.append([os.path.basename(a), os.path.basename(b)])
+        if self.plan.get("kind") == "replace":
+            self.fired = True
+            raise Injected(errno.EXDEV, "injected: replace")
         return real_replace(a, b)
-    builtins.open = fake_open
-    os.replace = fake_replace
+
+
+def run_once(gen, outdir, overwrite, plan, bufsize):
+    disk = Disk(outdir, plan, bufsize)
+    builtins.open = disk.open
+    os.replace = disk.replace
     raised = None
     try:
-        mm = metamodel_from_file(grammar_file)
-        if kind == "mm-dot":
-            G.metamodel_generate_dot.generator(None, mm, outdir, overwrite, False)
-        elif kind == "mm-plantuml":
-            G.metamodel_generate_plantuml.generator(None, mm, outdir, overwrite, False)
-        else:
-            model = mm.model_from_file(model_file)
-            G.model_generate_dot.generator(mm, model, outdir, overwrite, False)
+        gen(outdir, overwrite)
     except Injected as e:
+        raised = str(e.strerror)
+    except KeyboardInterrupt as e:
+        if not plan.get("interrupt"):
+            raise
         raised = str(e)
     except Exception as e:  # noqa
         raised = "OTHER:" + type(e).__name__ + ":" + str(e)[:100]
     finally:
         builtins.open = real_open
         os.replace = real_replace
-    return raised, log
+    return raised, disk
 
 
 def target_name(kind, grammar_file, model_file):
@@ -89,15 +134,33 @@ def target_name(kind, grammar_file, model_file):
     return base + (".pu" if kind == "mm-plantuml" else ".dot")
 
 
-def classify(path, full, old):
-    if not os.path.exists(path):
-        return "absent"
-    c = real_open(path).read()
-    if c == full:
-        return "complete"
-    if old is not None and c == old:
-        return "old"
-    return "partial"
+def norm(s):
+    # ids of python objects are node names in the dot output
+    return re.sub(r"\d{6,}", "N", s)
+
+
+def schedule(disk):
+    """The buffering observed in an undisturbed run: per write call Buf / FlushAll / FlushKeep, and the
+    number of low-level writes of every event (the last one is the flush in close, if any)."""
+    sched, events = [], []
+    for nb, nraw, allflushed in disk.writes:
+        if nraw == 0:
+            sched.append("B")
+        else:
+            sched.append("A" if allflushed else "K")
+            events.append(nraw)
+    at_close = disk.raw - disk.after_last_write
+    if at_close:
+        events.append(at_close)
+    return sched, events, at_close
+
+
+def pick(total, quick):
+    if not quick or total <= 14:
+        return list(range(total))
+    ks = set([0, 1, 2, total - 1, total - 2, total - 3])
+    ks.update(range(3, total - 3, max(1, (total - 6) // 6)))
+    return sorted(ks)
 
 
 def run_case(case):
@@ -111,48 +174,68 @@ def run_case(case):
             f.write(case["model"])
         kind = case["kind"]
         tname = target_name(kind, gf, mf)
+        mm = metamodel_from_file(gf)
+        if kind == "mm-dot":
+            gen = lambda out, ow: G.metamodel_generate_dot.generator(None, mm, out, ow, False)  # noqa
+        elif kind == "mm-plantuml":
+            gen = lambda out, ow: G.metamodel_generate_plantuml.generator(None, mm, out, ow, False)  # noqa
+        else:
+            model = mm.model_from_file(mf)
+            gen = lambda out, ow: G.model_generate_dot.generator(mm, model, out, ow, False)  # noqa
         ref = os.path.join(d, "ref")
         os.mkdir(ref)
-        raised, log = run_once(kind, gf, mf, ref, False, {})
-        if raised:
-            return {"error": "reference run failed: %s" % raised}
-        full = real_open(os.path.join(ref, tname)).read()
-        # ids of python objects appear in the dot output: normalise by regenerating in-process is not
-        # possible across runs, so compare lengths/structure modulo digits
-        import re
-        norm = lambda s: re.sub(r"\d{6,}", "N", s)
-        n = log["writes"]
-        plans = [{"kind": "open"}, {"kind": "close"}, {"kind": "replace"}]
-        for k in range(n):
-            plans.append({"kind": "write", "k": k, "partial": False})
-            plans.append({"kind": "write", "k": k, "partial": True})
-        plans.append({"kind": "write", "k": n + 3, "partial": False})   # beyond the last write: no failure
-        out = []
-        for i, plan in enumerate(plans):
-            for pre in ((False, True) if i % 7 == 0 else (False,)):
-                od = os.path.join(d, "o%d_%d" % (i, pre))
-                os.mkdir(od)
-                old = None
-                if pre:
-                    old = "OLD CONTENT\n"
-                    with real_open(os.path.join(od, tname), "w") as f:
-                        f.write(old)
-                raised, lg = run_once(kind, gf, mf, od, pre, plan)     # pre-existing file: run with --overwrite
-                tpath = os.path.join(od, tname)
-                st = "absent"
-                if os.path.exists(tpath):
-                    c = real_open(tpath).read()
-                    st = "complete" if norm(c) == norm(full) else ("old" if c == old else "partial")
-                others = sorted(x for x in os.listdir(od) if x != tname)
-                # a later run without --overwrite
-                raised2, lg2 = run_once(kind, gf, mf, od, False, {})
-                st2 = "absent"
-                if os.path.exists(tpath):
-                    c = real_open(tpath).read()
-                    st2 = "complete" if norm(c) == norm(full) else ("old" if c == old else "partial")
-                out.append({"plan": plan, "pre": pre, "raised": raised, "target": st, "leftovers": others,
-                            "opened": lg["opened"], "replaced": lg["replaced"], "rerun_target": st2, "rerun_raised": raised2})
-        return {"n_writes": n, "target": tname, "results": out}
+        gen(ref, False)                                   # completely undisturbed: plain builtins.open
+        full = real_open(os.path.join(ref, tname), encoding="utf-8").read()
+        groups = []
+        serial = [0]
+        for bufsize in case["bufsizes"]:
+            probe = os.path.join(d, "probe%d" % bufsize)
+            os.mkdir(probe)
+            raised, pd = run_once(gen, probe, False, {}, bufsize)
+            if raised:
+                return {"error": "undisturbed run through the instrumented file failed: %s" % raised}
+            got = real_open(os.path.join(probe, tname), encoding="utf-8").read()
+            if norm(got) != norm(full):
+                return {"error": "the instrumented file stack changes the output (bufsize %d)" % bufsize}
+            sched, events, at_close = schedule(pd)
+            total = pd.raw
+            plans = [{"kind": "open"}, {"kind": "close"}, {"kind": "replace"}]
+            for k in pick(total, case.get("quick", True)):
+                for persistent in (True, False):
+                    for partial in (False, True):
+                        plans.append({"kind": "raw", "k": k, "persistent": persistent, "partial": partial})
+            for k in sorted(set([0, total - 1])):      # Ctrl-C while the file is written: not an Exception subclass
+                plans.append({"kind": "raw", "k": k, "persistent": False, "partial": False, "interrupt": True})
+            plans.append({"kind": "raw", "k": total + 3, "persistent": True, "partial": False})   # beyond the last write: no failure
+            out = []
+            for i, plan in enumerate(plans):
+                for pre in ((False, True) if i % 5 == 0 else (False,)):
+                    serial[0] += 1
+                    od = os.path.join(d, "o%d" % serial[0])
+                    os.mkdir(od)
+                    old = None
+                    tpath = os.path.join(od, tname)
+                    if pre:
+                        old = "OLD CONTENT\n"
+                        with real_open(tpath, "w") as f:
+                            f.write(old)
+                    raised, dk = run_once(gen, od, pre, plan, bufsize)     # pre-existing file: run with --overwrite
+
+                    def state():
+                        if not os.path.exists(tpath):
+                            return "absent", 0
+                        c = real_open(tpath, encoding="utf-8", errors="replace").read()
+                        return ("complete" if norm(c) == norm(full) else ("old" if c == old else "partial")), len(c.encode())
+                    st, size = state()
+                    others = sorted(x for x in os.listdir(od) if x != tname)
+                    # a later run without --overwrite (the disk works again)
+                    raised2, dk2 = run_once(gen, od, False, {}, bufsize)
+                    st2, size2 = state()
+                    out.append({"plan": plan, "pre": pre, "raised": raised, "fired": dk.fired, "target": st, "size": size, "leftovers": others,
+                                "opened": dk.opened, "replaced": dk.replaced, "rerun_target": st2, "rerun_raised": raised2})
+                    shutil.rmtree(od, ignore_errors=True)
+            groups.append({"bufsize": bufsize, "sched": sched, "events": events, "raw_total": total, "results": out})
+        return {"target": tname, "full_size": len(full.encode()), "groups": groups}
     finally:
         shutil.rmtree(d, ignore_errors=True)
 
